@@ -15,7 +15,7 @@ RULE = ("(a) npy writer and reader vs the proved byte-level model: shapes with 1
         "bit patterns; text writer/reader vs the model; (c) on the implementation: text round trip |y - x| <= 0.5*10^-p + "
         "0.5 ulp(y) for finite x, specials survive; text -> npy -> text reproduces the text when the printed values have <= "
         "15 significant digits; (d) on the binary: output of create|view|fold in both formats, to a file and to a pipe, is "
-        "accepted by view|fold|stat with auto-detection. non-trivial = value not 0 / shape with >= 2 axes; spectra of 65537 and 2^20+1 entries through view, text and npy")
+        "accepted by view|fold|stat with auto-detection. non-trivial = value not 0 / shape with >= 2 axes; spectra of 65537 and 2^20+1 entries through view, text and npy; values an ulp from a decimal tie at precisions 0-4; npy through a pipe with line-feed bytes in the payload; writer refusal at 21810 axes")
 
 
 def fmt(l):
@@ -76,10 +76,24 @@ def check(rep, tier, seed):
             cases_w.append("npyw %s %s" % (fmt(sh), ",".join(tok(v) for v in vals)))
             for p_ in (0, 3, 6, 9):
                 cases_t.append("textw %s %d %s" % (fmt(sh), p_, ",".join(tok(v) for v in vals)))
+    # decimal fractions that lie within an ulp or two of a rounding boundary of the printed precision without being exact
+    # binary ties (0.15 and 0.35 at one decimal, 1.115 and 2.675 at two, k/20 and k/200 as normalising or projecting counts
+    # produces them): printed as the decimal nearest to the EXACT binary value
+    import struct as _stq
+    fb = lambda x: _stq.unpack("<Q", _stq.pack("<d", x))[0]
+    near = [0.15, 0.35, 0.45, 1.15, 0.05, 0.25, 0.55, 1.115, 2.675, 1.005, 0.125, 0.375, 8.345, 1.0005, 0.0015, 2.5, 0.5, 1.5] + [k / 20.0 for k in range(1, 20, 2)] + [k / 200.0 for k in range(1, 60, 6)]
+    for p_ in (0, 1, 2, 3, 4):
+        for i_ in range(0, len(near), 6):
+            chunk = near[i_:i_ + 6] + [-near[i_]]
+            cases_t.append("textw %d %d %s" % (len(chunk), p_, ",".join(tok(fb(v)) for v in chunk)))
+    # spectra with so many axes that the header no longer fits the 2-byte length field of NPY 1.0: the writer refuses (an
+    # error value, model: write_npy_checked = None) - the hypothesis header_len < 65536 of the round-trip theorems, at its edge
+    for dd in (21800, 21809, 21810, 22000):
+        cases_w.append("npyw %s %s" % (",".join(["1"] * dd), tok(random_bits(rng))))
     mo, outs = compare_cases(rep, "npy-writer", cases_w, nontrivial=lambda c, m: "," in c.split()[1],
                              classify=lambda c, m, i: "npy-writer:" + ("panic" if "PANIC" in i else "bytes"), spec=True, both_builds=(tier == "thorough"))
     # read back what the implementation wrote, with the implementation and with the model
-    written = [(c, o) for c, o in zip(dict.fromkeys(cases_w), outs[False]) if "PANIC" not in o and o and not o.startswith("<")]
+    written = [(c, o) for c, o in zip(dict.fromkeys(cases_w), outs[False]) if "PANIC" not in o and o and not o.startswith("<") and not o.startswith("ERR")]      # a refusal (header too long) writes nothing
     rb = ["npyr %s" % o for c, o in written]
     mo2, outs2 = compare_cases(rep, "npy-reader-on-written", rb, nontrivial=lambda c, m: True,
                                classify=lambda c, m, i: "npy-roundtrip", spec=True)
@@ -108,6 +122,25 @@ def check(rep, tier, seed):
     for b in rng.sample(small, min(len(small), 6 if tier == "quick" else 40)):
         vj += [(["view", "--precision", "4"], b), (["view", "-O", "npy"], b), (["fold", "-p", "3"], b), (["stat", "-s", "sum"], b)]
     invocation_variants(rep, "reads-what-it-writes:invocation-form", vj, rng, n=10 if tier == "quick" else 80)
+    # npy written to STDOUT (a pipe: std's line-buffered handle) whose payload holds line-feed bytes (3.25, 2053.0) followed by
+    # more than a buffer's worth of values: every byte arrives, and the tool reads its own output back
+    import struct as _stn
+    for nvals, special in ((300, {0: 3.25}), (2000, {5: 2053.0, 700: 3.25}), (1500, {1499: 3.25}), (140, {3: 3.25})):
+        vv = [float((7 * i) % 50) for i in range(nvals)]
+        for k_, x_ in special.items():
+            vv[k_] = x_
+        txt_in = text_spectrum([nvals], [repr(x) for x in vv])
+        (rc_a, so_a, se_a), = run_cli_many([(["view", "-O", "npy"], txt_in)])
+        rep.count("npy-to-stdout-with-line-feeds", "%d values" % nvals, True)
+        hl_ = _stn.unpack("<H", so_a[8:10])[0] if len(so_a) > 10 else 0
+        payload = so_a[10 + hl_:]
+        want_p = b"".join(_stn.pack("<d", x) for x in vv)
+        (rc_b, so_b, se_b), = run_cli_many([(["view", "--precision", "2"], so_a)])
+        want_t = text_spectrum([nvals], ["%.2f" % x for x in vv])
+        if rc_a != 0 or payload != want_p or rc_b != 0 or so_b != want_t:
+            rep.fail(kind="property-oracle", cls="reads-what-it-writes:npy-stdout", case="view -O npy to a pipe, %d values with line-feed bytes at %s" % (nvals, sorted(special)),
+                     argv=["sfs", "view", "-O", "npy"], stdin=txt_in.decode()[:4000], observed={"rc": [rc_a, rc_b], "payload bytes": len(payload), "stderr": (se_a + se_b).decode(errors="replace")[-200:]},
+                     expected={"payload bytes": len(want_p)}, detail="npy output through stdout is incomplete or is not read back by the tool")
     # stand-ins for std formatting / parsing vs Rust
     n = 20000 if tier == "quick" else 200000
     fcases, pcases = [], []
